@@ -328,7 +328,7 @@ def gen_cases(tier, seed):
 # ------------------------------------------------------------------ the check
 
 HEADER = ("From Coq Require Import List Arith Bool.\nImport ListNotations.\n"
-          "From Dagrt Require Import Generated Simplify.\n"
+          "From Dagrt Require Import GenC06 Simplify.\n"
           "Definition chk (c : ast * option ast) : bool :=\n"
           "  match simplify simplify_rev_expand simplify_guard_empty (fst c), snd c with\n"
           "  | Ok a, Some b => ast_eqb a b\n  | IndexError, None => true\n  | _, _ => false end.\n")
@@ -383,7 +383,7 @@ def _neighbours(t):
 def main(tier):
     rep = common.Reporter(PID, tier)
     seed = common.seed()
-    ps = common.proof_stage(rep, PID)
+    ps = common.proof_stage(rep, PID, gen=["c06"])
 
     cases, dist = gen_cases(tier, seed)
     results = [run_impl(t) for t in cases]
@@ -410,7 +410,7 @@ def main(tier):
     mism = []
     errors = []
     if os.path.exists(os.path.join(common.COQ, "model", "Simplify.vo")) and os.path.exists(
-            os.path.join(common.COQ, "Generated.vo")):
+            os.path.join(common.COQ, "gen", "GenC06.vo")):
         terms = [case_term(t, r) for t, r in zip(cases, results)]
         mism, n_eval, errors = common.eval_cases(PID, HEADER, terms, "chk")
     else:
